@@ -93,6 +93,11 @@ Definition term_by (t : cterm T) : option nat :=
 (* if by is not None: X[:, by] = 1.0   (the last assignment, so it wins over a feature column with the same index) *)
 Definition set_by (by_ : option nat) (row : list T) : list T :=
   match by_ with Some j => set_nth j 1 row | None => row end.
+(* _flatten_mesh(Xs, term) for a user-supplied 'ij' mesh over the given axes (one per marginal): row r holds point r of the
+   mesh (C order) in the marginals' feature columns -- the values of the mesh arrays as real numbers, whatever their dtype --
+   the by-column 1, zeros elsewhere: what partial_dependence(term, X=<tuple of mesh arrays>, meshgrid=True) evaluates on *)
+Definition user_mesh_grid (m : nat) (t : cterm T) (axes : list (list T)) : list (list T) :=
+  map (fun pt => set_by (term_by t) (flatten_row m (map simple_feature (term_marginals t)) pt)) (mesh axes).
 (* _flatten_mesh(generate_X_grid(term, n, meshgrid=True), term): what partial_dependence(term, meshgrid=True) evaluates on *)
 Definition mesh_grid (lin : nat -> T * T) (m n : nat) (t : cterm T) : list (list T) :=
   map (fun pt => set_by (term_by t) (flatten_row m (map simple_feature (term_marginals t)) pt))
